@@ -3,6 +3,7 @@ package props
 import (
 	"crypto/ed25519"
 	"crypto/sha256"
+	"encoding/hex"
 	"fmt"
 	"os"
 	"strings"
@@ -38,6 +39,8 @@ var c09Kinds = []string{
 	"sig-flip", "sig-truncate", "sig-empty", "sig-zero", "sig-extend",
 	"sender-other", "sender-stranger", "sender-empty", "sender-case",
 	"resign-other", "resign-fresh", "resign-other-changed", "resign-fresh-changed",
+	// the same forgeries aimed at a round identifier the node has not opened (no keys are registered for it at all)
+	"round-unknown", "round-unknown-stranger", "round-unknown-unsigned", "round-unknown-resign-fresh",
 }
 
 func c09Gen(rt *rapid.T) c09Plan {
@@ -173,6 +176,17 @@ func c09Apply(tr *ceremonyTrace, m storage.Message, mu c09Mut) (storage.Message,
 			return out, false
 		}
 		out.Signature = ed25519.Sign(freshKey(mu.A%5), out.Data)
+	case "round-unknown", "round-unknown-stranger", "round-unknown-unsigned", "round-unknown-resign-fresh":
+		h := sha256.Sum256([]byte(fmt.Sprintf("a round nobody opened %d", mu.A%5)))
+		out.DkgRoundID = hex.EncodeToString(h[:])
+		switch mu.Kind {
+		case "round-unknown-stranger":
+			out.SenderAddr = fmt.Sprintf("stranger_%d", mu.A%7)
+		case "round-unknown-unsigned":
+			out.Signature = nil
+		case "round-unknown-resign-fresh":
+			out.Signature = ed25519.Sign(freshKey(mu.A%5), out.Data)
+		}
 	default:
 		return out, false
 	}
